@@ -72,7 +72,11 @@ def analyse(ctx, case, run, S):
 
 
 def run(ctx):
-    mirx_props.c17_constructors(ctx)
+    try:
+        mirx_props.c17_constructors(ctx)
+    except Inconclusive as e:
+        # the MIR no longer has the expected shape (anchors / symbols): Engine M is inconclusive, the rest of the check still runs
+        ctx.inconclusive.append('Engine M: %s' % e)
     parallel_cases(ctx, cases(ctx.tier), analyse, workers=14)
     bounds = {'Engine M': 'ALL usize/u8 arguments and element counts of RangeParameters::init, RangeStatement::init, ExtensionDegree::try_from (u8, usize), ExtendedMask::assign, CommitmentOpening::r_len, PedersenGens::commit; RangeWitness::init loop body from an arbitrary state',
               'concrete sweep (enumeration, on the model crates)': 'bit lengths / capacities 0..=130 (thorough: full square), commitment counts 0..=17 x promise counts x capacities x seed, opening shapes with blinding counts 0..=8 up to 4 openings, all u8 and selected usize degree encodings'}
